@@ -8,3 +8,4 @@ for p in "$@"; do
   echo "$(basename $d) -> $p: $out"
 done
 git -C /repo checkout -- .
+python3 /verif/tools/extract_facts.py >/dev/null 2>&1   # gen/*.v back to the restored source
